@@ -373,6 +373,9 @@ Section Model.
   (* Params[k].Variadic *)
   Definition pvariadic (d : mdata) (k : nat) : bool := dvariadic d && is_last (dparams d) k.
 
+  (* Returns[k].Variadic: methodData sets it to false for every result *)
+  Definition rvariadic (d : mdata) (k : nat) : bool := false.
+
   Fixpoint mapi_from {A B} (k : nat) (f : nat -> A -> B) (l : list A) : list B :=
     match l with [] => [] | x :: r => f k x :: mapi_from (S k) f r end.
   Definition mapi {A B} := @mapi_from A B 0.
